@@ -18,7 +18,7 @@ from ..mon import vmobs
 from ..ref import sem
 
 PROPERTY = "C06"
-TECHNIQUE = "differential execution: emitted bytes in an independent WebAssembly engine vs the real VM; refusals counted; workload includes constructs outside the backend's subset"
+TECHNIQUE = "differential execution: emitted bytes in an independent WebAssembly engine vs the real VM; refusals counted (inside the subset: judged); workload includes constructs outside the backend's subset"
 LEVEL_TEXT = ("Seeded random straight-line scalar modules (the backend's subset: must agree), the directed outside-subset family "
               "(locals, stores to parameters, branches, loops, casts, calls, %, logic, <=, !=, compound assignment) and random "
               "scalar-core programs (must agree or be refused), both optimisation settings, 6-10 inputs per function over i32 and "
